@@ -8,15 +8,16 @@ VARIABLE shist
 sgvars == <<svars, shist>>
 
 SGInit == SInit /\ shist = <<>>
-SGNext == \/ SendNext /\ shist' = Append(shist, <<"send", script[sent + 1]>>)
+SGNext == \/ RegStep /\ UNCHANGED shist                   \* the plan itself is emitted
+          \/ SendNext /\ shist' = Append(shist, <<"send", script[sent + 1]>>)
           \/ Receive /\ shist' = Append(shist, <<"recv", Head(chan)>>)
-          \/ \E i \in 1..n : ShutdownOne(i) /\ shist' = Append(shist, <<"call", i>>)
+          \/ \E i \in -1..n : ShutdownOne(i) /\ shist' = Append(shist, <<"call", i>>)
           \/ Return /\ shist' = Append(shist, <<"ret", status'>>)
 SGSpec == SGInit /\ [][SGNext]_sgvars
 
 Complete == phase = "returned" /\ sent = Len(script)
 
 SEmit == ~Complete
-         \/ CSVWrite("%1$s", <<ToJson([n |-> n, outcome |-> outcome, script |-> script, events |-> shist,
+         \/ CSVWrite("%1$s", <<ToJson([n |-> n, outcome |-> outcome, adds |-> plan0, script |-> script, events |-> shist,
                                          order |-> order, status |-> status])>>, "signal_vectors.ndjson")
 =============================================================================
